@@ -30,9 +30,21 @@ if not skip_demo:
     src = [f for f in srcs if os.path.basename(f) == os.path.basename(dest)] or srcs
     shutil.copy(src[0], os.path.join(wt, dest))
     sel = ("--test %s" % test) if (test and "tests/" in dest) else test
-    cmd = "CARGO_TARGET_DIR=%s/target cargo test --offline -p %s %s %s" % (wt, crate, extra, sel)
+    cmd = "CARGO_TARGET_DIR=%s cargo test --offline -p %s %s %s" % (os.environ.get("SEED_TARGET", "/tmp/tgt-seed"), crate, extra, sel)
+    # the shared seed target dir aliases the same crate across worktrees (cargo freshness is mtime based):
+    # touch every source of the crate(s) involved so that each run rebuilds from THIS worktree
+    def touch():
+        dirs = {os.path.join(wt, dest).split("/tests/")[0].split("/src/")[0]}
+        for line in open(os.path.join(sd, "patch.diff")):
+            if line.startswith("+++ b/"):
+                f = line[6:].strip()
+                dirs.add(os.path.join(wt, f).split("/src/")[0])
+        for d in dirs:
+            sh("find %s -name '*.rs' -exec touch {} +" % d)
+    touch()
     r0 = sh(cmd, cwd=wt)
     sh("git apply %s/patch.diff" % sd, cwd=wt)
+    touch()
     r1 = sh(cmd, cwd=wt)
     sh("git apply -R %s/patch.diff" % sd, cwd=wt)
     os.remove(os.path.join(wt, dest))
